@@ -28,11 +28,14 @@ type M struct {
 	Keys []string `json:"keys,omitempty"`
 }
 
-func Nil() M            { return M{K: "nil"} }
-func Str(s string) M    { return M{K: "str", S: s} }
-func Int(i int) M       { return M{K: "int", I: int64(i)} }
-func Float(f float64) M { return M{K: "float", F: f} }
-func Bool(b bool) M     { return M{K: "bool", B: b} }
+func Nil() M { return M{K: "nil"} }
+
+// NilPtr is nothing, handed over as a nil pointer to the given type ("int", "str", "struct").
+func NilPtr(typ string) M { return M{K: "nil", S: typ} }
+func Str(s string) M      { return M{K: "str", S: s} }
+func Int(i int) M         { return M{K: "int", I: int64(i)} }
+func Float(f float64) M   { return M{K: "float", F: f} }
+func Bool(b bool) M       { return M{K: "bool", B: b} }
 func Ints(v ...int) M {
 	m := M{K: "ints"}
 	for _, i := range v {
@@ -78,6 +81,15 @@ func NamedNames() []string {
 func (m M) Go() any {
 	switch m.K {
 	case "nil", "":
+		// nothing - handed over as an untyped nil or (S = "int" / "str" / "struct") as a nil pointer of that type
+		switch m.S {
+		case "int":
+			return (*int)(nil)
+		case "str":
+			return (*string)(nil)
+		case "struct":
+			return (*struct{ X int })(nil)
+		}
 		return nil
 	case "str":
 		return m.S
@@ -164,6 +176,9 @@ func (m M) Go() any {
 func (m M) String() string {
 	switch m.K {
 	case "nil", "":
+		if m.S != "" {
+			return "(*" + m.S + ")(nil)"
+		}
 		return "nil"
 	case "str":
 		return strconv.QuoteToASCII(m.S)
